@@ -965,6 +965,8 @@ class Engine:
             dflt = args[1]
             if isinstance(dflt, VPy) and dflt.obj is EMPTY_DICT:
                 dflt = self.new_map(st, m.vk)
+            if isinstance(dflt, VTuple) and m.vk == 'any':
+                dflt = VAny(st.alloc('tuple'))          # a tuple stored as an opaque value (its components are not tracked)
             new = self.as_ref(dflt) if not isinstance(dflt, VInt) else dflt.t
             val = z3.If(has, cur, new)
             st.mput(m.t, key, val, m.kk)
